@@ -1,6 +1,7 @@
 package rules
 
 import (
+	"go/token"
 	"go/ast"
 	"go/types"
 	"strings"
@@ -170,5 +171,94 @@ func sortDecls(fds []*ast.FuncDecl) {
 		for j := i; j > 0 && fds[j].Pos() < fds[j-1].Pos(); j-- {
 			fds[j], fds[j-1] = fds[j-1], fds[j]
 		}
+	}
+}
+
+// R18DiagsReachResult — diagnostics produced on the profile load path are returned or known to be free of errors.
+func R18DiagsReachResult(c *Ctx) {
+	const rule = "R18-diags-reach-result"
+	c.R.Rule(rule, "in hclsimple (Decode, DecodeFile) and pkg/profile, for every call that yields hcl.Diagnostics or error into a variable, every return that can follow it either returns a value built from that result or lies on the path where its HasErrors()/!= nil test was negative: a profile with syntax errors is never reported as loaded", 3)
+	inScope := func(p string) bool { return p == PkgYaotl+"/hclsimple" || p == PkgProfile }
+	n := 0
+	for _, fn := range c.P.ModuleFuncs(inScope) {
+		for _, b := range fn.Blocks {
+			for _, in := range b.Instrs {
+				call, ok := in.(*ssa.Call)
+				if !ok {
+					continue
+				}
+				res := call.Call.Signature().Results()
+				idx := -1
+				for i := 0; i < res.Len(); i++ {
+					if isErrOrDiags(res.At(i).Type()) {
+						idx = i
+					}
+				}
+				if idx < 0 {
+					continue
+				}
+				var d ssa.Value
+				if res.Len() == 1 {
+					d = call
+				} else {
+					for _, r := range *call.Referrers() {
+						if ex, ok := r.(*ssa.Extract); ok && ex.Index == idx {
+							d = ex
+						}
+					}
+				}
+				if d == nil || len(*d.Referrers()) == 0 {
+					continue // discarded results are R18-errdrop's business
+				}
+				isD := func(v ssa.Value) bool { return v == d }
+				n++
+				construct := "result of " + shortCallee(CalleeName(call)) + " reaches every later return"
+				bad := ""
+				for _, rb := range fn.Blocks {
+					ret, isRet := rb.Instrs[len(rb.Instrs)-1].(*ssa.Return)
+					if !isRet || len(ret.Results) == 0 {
+						continue
+					}
+					if !(rb == b || BlockReaches(b, rb, nil)) {
+						continue
+					}
+					carried := false
+					for _, rv := range ret.Results {
+						if DerivesFrom(rv, isD) {
+							carried = true
+						}
+					}
+					if carried {
+						continue
+					}
+					cleared := false
+					for _, f := range FactsAt(rb) {
+						cond, truth := StripNot(f.Cond, f.Truth)
+						switch x := cond.(type) {
+						case *ssa.Call:
+							if strings.HasSuffix(CalleeName(x), ".HasErrors") && DerivesFrom(x, isD) {
+								// negative: nothing to report; positive: this is the failure edge, which answers with an error of its own
+								cleared = !truth || !isNilConst(ret.Results[len(ret.Results)-1])
+							}
+						case *ssa.BinOp:
+							if (isNilConst(x.X) || isNilConst(x.Y)) && DerivesFrom(x, isD) {
+								cleared = ((x.Op == token.EQL) == truth) || !isNilConst(ret.Results[len(ret.Results)-1])
+							}
+						}
+					}
+					if !cleared {
+						bad = c.pos(ret.Pos())
+					}
+				}
+				if bad == "" {
+					c.R.Ok(rule, FuncShort(fn), construct, c.pos(call.Pos()), "returned, or tested negative, on every path", true)
+				} else {
+					c.R.Bad(rule, FuncShort(fn), construct, bad, "this return can follow the call without carrying its diagnostics and without a negative HasErrors()/nil test of them: errors found there are lost and the configuration is used as if it had loaded cleanly")
+				}
+			}
+		}
+	}
+	if n == 0 {
+		c.R.Anchor(rule, "calls yielding diagnostics in hclsimple / pkg/profile")
 	}
 }
